@@ -88,6 +88,8 @@ TraceNext == TNew \/ TWithStart \/ TCreated \/ TRelease \/ TCbEnter \/ TCbExit \
 TraceSpec == TraceInit /\ [][TraceNext]_vars
 
 WF == \A t \in DOMAIN inCb : TRUE
+\* states of a trace are told apart by the line counter alone (cheap fingerprints)
+TraceView == l
 TraceAccepted == TLCGet("stats").diameter - 1 = Len(Trace)
 ReportKF == (l = Len(Trace) + 1) => PrintT(<<"KF", kf>>)
 =============================================================================
